@@ -8,6 +8,8 @@
 //      typed / unit-bearing reads through ParameterFile, dump of the used values, re-read
 #include "ParameterFile.hpp"
 #include "VerifAccess.hpp"
+#include "RestartReader.hpp"
+#include "RestartWriter.hpp"
 
 #include <cmath>
 #include <cstdio>
@@ -34,6 +36,7 @@ static std::string jesc(const std::string &s) {
   return o;
 }
 
+static std::string g_outname;
 static void one_tree(const std::string &line, int idx, FILE *out) {
   std::istringstream is(line);
   int n;
@@ -89,7 +92,41 @@ static void one_tree(const std::string &line, int idx, FILE *out) {
     pj += "\"" + jesc(kv.first) + "\":\"" + jesc(kv.second) + "\"";
   }
   pj += "}";
-  fprintf(out, "\"parsed\":%s}\n", pj.c_str());
+  fprintf(out, "\"parsed\":%s,", pj.c_str());
+  fflush(out);
+  // third serialisation: the restart dump of the dictionary (write_restart_file -> restart constructor) is the
+  // identity on the tree and on the record of used values; every second key is queried first so that the two differ
+  {
+    int k = 0;
+    for (const auto &kv : VerifAccess::yaml_map(parsed))
+      if ((k++ % 2) == 0)
+        (void)parsed.get_value< std::string >(kv.first);
+    std::ostringstream u0;
+    parsed.print_contents(u0, true);
+    char fname[1024];
+    snprintf(fname, sizeof(fname), "%s.restart_%d.dump", g_outname.c_str(), (int)getpid());
+    {
+      RestartWriter w(fname);
+      parsed.write_restart_file(w);
+    }
+    std::string rj = "{";
+    {
+      RestartReader r(fname);
+      YAMLDictionary restored(r);
+      bool f2 = true;
+      for (const auto &kv : VerifAccess::yaml_map(restored)) {
+        if (!f2)
+          rj += ",";
+        f2 = false;
+        rj += "\"" + jesc(kv.first) + "\":\"" + jesc(kv.second) + "\"";
+      }
+      std::ostringstream u1;
+      restored.print_contents(u1, true);
+      rj += "}";
+      fprintf(out, "\"restored\":%s,\"used_same\":%d}\n", rj.c_str(), (int)(u0.str() == u1.str()));
+    }
+    unlink(fname);
+  }
   fflush(out);
 }
 
@@ -101,6 +138,7 @@ static int do_trees(const char *cases, const char *outname) {
     if (!l.empty())
       lines.push_back(l);
   unlink(outname);
+  g_outname = outname;
   size_t next = 0;
   while (next < lines.size()) {
     fflush(nullptr);
